@@ -13,6 +13,7 @@ INVARIANT DensityEstimator
 INVARIANT PAlgApproachesPosterior
 INVARIANT ChangeProper
 INVARIANT ChangeGrowMass
+INVARIANT ChangeShrinkMass
 INVARIANT ChangeParticle
 INVARIANT MarginalUnbiased
 INVARIANT MarginalExact
